@@ -10,8 +10,9 @@
 (* acceptance means the history is linearizable with respect to the model  *)
 (* of the individual atomics.  An `end` line carries the quiescent         *)
 (* counters / latch / reference / publication state.  Histories are        *)
-(* concatenated with Reset lines.  A fully consumed log is reported as the *)
-(* "violation" of NotAccepted (listed last in the config).                 *)
+(* concatenated with Reset lines.  Because silent steps are composed in, a  *)
+(* log is accepted when some path consumes every line: the high-water mark *)
+(* of `l` is kept in TLC register 1 (run with -workers 1).                  *)
 (***************************************************************************)
 EXTENDS MC_Ledger, Json, IOUtils
 
@@ -20,7 +21,7 @@ TraceLog == ndJsonDeserialize(IOEnv.TRACE_FILE)
 VARIABLE l
 tvars == <<vars, l>>
 
-TraceInit == Init /\ l = 1
+TraceInit == Init /\ l = 1 /\ TLCSet(1, 0)
 Line == TraceLog[l]
 IsEv(e) == l <= Len(TraceLog) /\ Line.ev = e /\ l' = l + 1
 
@@ -85,5 +86,6 @@ TReset ==
 TraceNext == TReset \/ TInv \/ TRes \/ TEnd \/ Silent
 TraceSpec == TraceInit /\ [][TraceNext]_tvars
 
-NotAccepted == l <= Len(TraceLog)
+HighWater == TLCSet(1, IF l > TLCGet(1) THEN l ELSE TLCGet(1))
+TraceAccepted == TLCGet(1) > Len(TraceLog)
 =============================================================================
